@@ -2,11 +2,13 @@
 """Prints the prompt for a fresh mutation sub-agent for one property (only the property text is shared)."""
 import json, sys
 pid = sys.argv[1]
+suffix = sys.argv[2] if len(sys.argv) > 2 else ''
+avoid = sys.argv[3] if len(sys.argv) > 3 else ''
 for l in open('/verif/properties.jsonl'):
     p = json.loads(l)
     if p['id'] == pid:
         break
-wt = f"/tmp/mut-{pid.lower()}"
+wt = f"/tmp/mut-{pid.lower()}{suffix}"
 print(f"""You are helping to evaluate a verification effort by producing realistic BUGGY variants of a Rust codebase. Work ONLY in your own scratch git worktree; never modify /repo itself and do not look at /verif.
 
 Setup (run exactly):
@@ -26,9 +28,10 @@ Task: produce TWO independent, different changes (mutants) to the source code un
   (4) needs something SPECIFIC to manifest: a particular interleaving / arrival order, a fault at a particular point, a multi-step sequence of operations, an unusual input (e.g. stakes landing exactly on a threshold), or two cooperating sites that each look fine alone - NOT something that ordinary use (the happy path) would expose at once.
 For each mutant also write a DEMONSTRATION: a Rust unit test (added to the appropriate `#[cfg(test)] mod tests` of the crate, or an integration test file) that FAILS with the mutant applied and PASSES on the unchanged code. Verify both directions yourself (git stash / git diff / git apply in YOUR worktree only).
 
-Deliver, for mutant k in {{1,2}}, the files in /tmp/mut-{pid.lower()}-out/m<k>/ :
+Deliver, for mutant k in {{1,2}}, the files in /tmp/mut-{pid.lower()}{suffix}-out/m<k>/ :
   patch.diff   - `git diff` of the source change ONLY (no test), applicable with `git apply` at the root of a checkout of the same commit
   demo.diff    - `git diff` adding ONLY the demonstration test (applies on the unchanged tree and on top of patch.diff)
   README.md    - which clause of the property it breaks, what it needs in order to manifest (the specific order/input), the exact commands you ran and their outcomes (suite passes with mutant; demo fails with mutant, passes without)
 When done, leave the worktree in the UNCHANGED state (git checkout -- . ; remove untracked test files) and run `cargo clean` in it is NOT necessary (the main developer removes the worktree). Keep CPU use modest (others share the machine): use `cargo test --offline --lib -j 4`.
+{("Already explored by others - choose DIFFERENT sites and ideas: " + avoid) if avoid else ""}
 Final message: a short summary of the two mutants (one paragraph each).""")
